@@ -37,3 +37,12 @@ Theorem C04_fragment_balanced_partial : forall fuel wd main bs, Forall FragL.in_
   TokL.runL (St.flat (St.wout s)) (TokL.LTxt, 0%nat) = (TokL.LTxt, 0%nat) /\ In (St.curfile s, St.flat (St.wout s)) (St.files s).
 Proof. exact FragL.C04_fragment_balanced. Qed.
 Print Assumptions C04_fragment_balanced_partial.
+
+(* the same with display blocks .Bd/.Ed nested to any depth, for every positive nesting fuel; the compilation is panic-free *)
+Require FragBL.
+Theorem C04_blocks_balanced_partial : forall fuel wd main bs, Forall FragBL.in_frag bs ->
+  let s := snd (Loop.compile (S fuel) [108; 97; 116; 101; 120] (* the format name: latex *) 0 wd main bs) in
+  St.panicked s = None /\
+  TokL.runL (St.flat (St.wout s)) (TokL.LTxt, 0%nat) = (TokL.LTxt, 0%nat) /\ In (St.curfile s, St.flat (St.wout s)) (St.files s).
+Proof. exact FragBL.C04_blocks_balanced. Qed.
+Print Assumptions C04_blocks_balanced_partial.
